@@ -269,3 +269,77 @@ pub fn verneed_2x1_headers_first<const G: usize>(class: Class, le: bool) {
 pub fn verneed_2x1_headers_first_g0() {
     verneed_2x1_headers_first::<0>(Class::ELF32, true);
 }
+
+/// Two definitions in chain order (not assumed sorted by index) with one name each; all indices / flags / hashes symbolic.
+///   VD0 @0 (vd_aux 20, vd_next 28), VDA0 @20, VD1 @28 (vd_aux 20, vd_next 0), VDA1 @48
+pub fn verdef_2x1(class: Class, le: bool) {
+    let e = if le { AnyEndian::Little } else { AnyEndian::Big };
+    let mut def: [u8; 56] = [0xaa; 56];
+    let n0: u16 = kani::any();
+    let n1: u16 = kani::any();
+    let f0: u16 = kani::any();
+    let f1: u16 = kani::any();
+    let h0: u32 = kani::any();
+    let h1: u32 = kani::any();
+    put_u16(&mut def, 0, 1, le);
+    put_u16(&mut def, 2, f0, le);
+    put_u16(&mut def, 4, n0, le);
+    put_u16(&mut def, 6, 1, le);
+    put_u32(&mut def, 8, h0, le);
+    put_u32(&mut def, 12, 20, le);
+    put_u32(&mut def, 16, 28, le);
+    put_u32(&mut def, 20, 3, le); // "bc"
+    put_u32(&mut def, 24, 0, le);
+    put_u16(&mut def, 28, 1, le);
+    put_u16(&mut def, 30, f1, le);
+    put_u16(&mut def, 32, n1, le);
+    put_u16(&mut def, 34, 1, le);
+    put_u32(&mut def, 36, h1, le);
+    put_u32(&mut def, 40, 20, le);
+    put_u32(&mut def, 44, 0, le);
+    put_u32(&mut def, 48, 10, le); // "d"
+    put_u32(&mut def, 52, 0, le);
+    let versym: [u16; 2] = kani::any();
+    let mut vs = [0u8; 4];
+    put_u16(&mut vs, 0, versym[0], le);
+    put_u16(&mut vs, 2, versym[1], le);
+    let ids: VersionIndexTable<'_, AnyEndian> = ParsingTable::new(e, class, &vs);
+    let strs = StringTable::new(&STRS);
+    let table = SymbolVersionTable::new(ids, None, Some((VerDefIterator::new(e, class, 2, 0, &def), strs)));
+    let i: usize = kani::any();
+    let r = table.get_definition(i);
+    if i >= 2 {
+        assert!(r.is_err());
+        return;
+    }
+    let v = versym[i] & 0x7fff;
+    let hidden = versym[i] & 0x8000 != 0;
+    match r {
+        Ok(None) => {
+            assert!(n0 != v && n1 != v);
+        }
+        Ok(Some(d)) => {
+            assert!(d.hidden == hidden);
+            let mut names = d.names;
+            if n0 == v {
+                assert!(d.hash == h0 && d.flags == f0);
+                assert!(matches!(names.next(), Some(Ok(s)) if str_eq(s, b"bc")));
+            } else {
+                assert!(n1 == v);
+                assert!(d.hash == h1 && d.flags == f1);
+                assert!(matches!(names.next(), Some(Ok(s)) if str_eq(s, b"d")));
+                kani::cover!(n0 > n1, "second definition found although the first one has a larger index");
+            }
+            assert!(names.next().is_none());
+        }
+        Err(_) => {
+            assert!(false);
+        }
+    }
+}
+
+#[kani::proof]
+#[kani::unwind(8)]
+pub fn verdef_2x1_unsorted() {
+    verdef_2x1(Class::ELF64, true);
+}
